@@ -327,8 +327,8 @@ def Inverter.inv (inv : Inverter) (sat : Nat) (value : List Nat) : InvOut :=
 
 /-- `SafeGcdInverter::inv_vartime`. -/
 def Inverter.invVartime (inv : Inverter) (sat : Nat) (value : List Nat) : InvOut :=
-  let (s, c) := divstepsVartime inv.adjuster inv.modulus (fromUint value inv.modulus.length) inv.inverse
-  finishInv inv sat s.d s.f s.g c
+  let r := divstepsVartime inv.adjuster inv.modulus (fromUint value inv.modulus.length) inv.inverse
+  finishInv inv sat r.1.d r.1.f r.1.g r.2
 
 /-! ### gcd via safegcd -/
 
@@ -347,9 +347,9 @@ def gcdFixed (vartime : Bool) (sat : Nat) (fw gw : List Nat) : GcdOut :=
   let f := fromUint fw n
   let g := fromUint gw n
   let iters := iterations (ubits f) (ubits g)
-  let (s, c) := if vartime then divstepsVartime e f g inverse else (divsteps false e f g inverse, iters)
-  let f1 := uselect s.f (uneg s.f) (uisNeg s.f)
-  ⟨toUint f1 sat, ueq s.g (uzero n), uisNeg f1, c, iters⟩
+  let r := if vartime then divstepsVartime e f g inverse else (divsteps false e f g inverse, iters)
+  let f1 := uselect r.1.f (uneg r.1.f) (uisNeg r.1.f)
+  ⟨toUint f1 sat, ueq r.1.g (uzero n), uisNeg f1, r.2, iters⟩
 
 /-! ### boxed duplicates (src/modular/safegcd/boxed.rs) — the limb arithmetic is a literal copy;
     what differs is the limb-count bookkeeping, mirrored here. -/
@@ -368,9 +368,9 @@ def uresize (a : List Nat) (n : Nat) : List Nat := a.take n ++ List.replicate (n
 def Inverter.invBoxed (inv : Inverter) (vartime : Bool) (value : List Nat) : InvOut :=
   let n := inv.modulus.length
   let g := uresize (fromUint value (nlimbsFor (value.length * 64))) n
-  let (s, c) := if vartime then divstepsVartime inv.adjuster inv.modulus g inv.inverse
-                else (divsteps true inv.adjuster inv.modulus g inv.inverse, 0)
-  finishInv inv value.length s.d s.f s.g c
+  let r := if vartime then divstepsVartime inv.adjuster inv.modulus g inv.inverse
+            else (divsteps true inv.adjuster inv.modulus g inv.inverse, 0)
+  finishInv inv value.length r.1.d r.1.f r.1.g r.2
 
 /-- `safegcd::boxed::gcd(f, g)` / `gcd_vartime`: result has `f`'s precision. -/
 def gcdBoxed (vartime : Bool) (fw gw : List Nat) : GcdOut :=
@@ -380,8 +380,8 @@ def gcdBoxed (vartime : Bool) (fw gw : List Nat) : GcdOut :=
   let g := fromUint gw n
   let e := uone n
   let iters := iterations (ubitsBoxed f) (ubitsBoxed g)
-  let (s, c) := if vartime then divstepsVartime e f g inverse else (divsteps true e f g inverse, iters)
-  let f1 := uselect s.f (uneg s.f) (uisNeg s.f)
-  ⟨toUint f1 fw.length, ueq s.g (uzero n), uisNeg f1, c, iters⟩
+  let r := if vartime then divstepsVartime e f g inverse else (divsteps true e f g inverse, iters)
+  let f1 := uselect r.1.f (uneg r.1.f) (uisNeg r.1.f)
+  ⟨toUint f1 fw.length, ueq r.1.g (uzero n), uisNeg f1, r.2, iters⟩
 
 end CB.SafeGcd
